@@ -20,7 +20,7 @@
    DRRProofs.drr_progress shows unreachable.
 
    Besides the forwarded packets an action emits the internal events of run() in program order
-   (DOPass, DOQuantum, DOSkip, DOSend, DOPark, DODebit, DOReset): the visit rule of C15 is stated on them.
+   (DOPass, DOQuantum, DOSkip, DOSend, DOPark, DODebit): the visit rule of C15 is stated on them.
    Only DOForward is visible from outside; the correspondence compares it and, after every action, the
    public fields of the object. *)
 From Coq Require Import ZArith QArith Qminmax List Bool.
@@ -103,8 +103,8 @@ Inductive dout :=
 | DOSkip (c : Z)                     (* visit of c: class_count[c] = 0, no quantum *)
 | DOSend (c : Z) (p : pkt)           (* head p is affordable: send_packet(p) spawned *)
 | DOPark (c : Z) (p : pkt)           (* head p is not affordable: parked in head_of_line, visit ends *)
-| DODebit (c : Z) (p : pkt)          (* after the transmission: class_count[c] -= 1, deficit[c] -= size *)
-| DOReset (c : Z).                   (* class_count[c] = 0 after the debit: deficit[c] := 0 *)
+| DODebit (c : Z) (p : pkt) (reset : bool).   (* after the transmission of p: class_count[c] -= 1, deficit[c] -= size;
+                                                reset = the class is now empty and deficit[c] := 0 *)
 
 (* ---- field updates ------------------------------------------------------------------------------ *)
 Definition dset_ctl (d : drr) (k : dctl) : drr :=
@@ -143,8 +143,8 @@ Definition dtry_head (c : Z) (rest : list Z) (d : drr) (p : pkt) : dres :=
   if Qle_bool (inject_Z (psize p)) (ddef d c) then
     (* self.current_packet = packet; yield env.process(self.send_packet(packet)) *)
     DYield {| dnow := dnow d; dtok := dtok d; dst := dst d; dqcnt := dqcnt d; dqbytes := dqbytes d; dtotal := dtotal d;
-              dccnt := dccnt d; ddef := ddef d; dhol := dhol d; dcur := Some p; dnrecv := dnrecv d; dlmax := dlmax d;
-              dchd := DCStart p; dctrl := DKChild c rest |} [DOSend c p]
+              dccnt := dccnt d; ddef := ddef d; dhol := dupd (dhol d) c None; dcur := Some p; dnrecv := dnrecv d;
+              dlmax := dlmax d; dchd := DCStart p; dctrl := DKChild c rest |} [DOSend c p]
   else
     (* self.head_of_line[class_id] = packet; break *)
     DFall (dset_hol d c (Some p)) [DOPark c p].
@@ -153,7 +153,7 @@ Definition dtry_head (c : Z) (rest : list Z) (d : drr) (p : pkt) : dres :=
 Definition dinner (c : Z) (rest : list Z) (d : drr) : dres :=
   if negb (Qle_bool (ddef d c) 0) && (0 <? dccnt d c)%Z then
     match dhol d c with
-    | Some p => dtry_head c rest (dset_hol d c None) p
+    | Some p => dtry_head c rest d p             (* del self.head_of_line[class_id] *)
     | None =>
         match sq_get fifo_pop (dst d c) with
         | Some q => DYield (dset_ctl (dset_st d c q) (DKGet c rest)) []
@@ -247,7 +247,7 @@ Definition drr_act (cfg : dcfg) (d : drr) (a : daction) : option (drr * list dou
   match a with
   | DPut p =>
       let c := df2c cfg (flow p) in
-      if dmemZ c (dclasses cfg) && (0 <=? psize p)%Z then
+      if dmemZ c (dclasses cfg) && (0 <? psize p)%Z then
         let f := flow p in
         Some ({| dnow := dnow d;
                  dtok := if (dtotal d =? 0)%Z then sq_put fifo_push (dnow d) tt (dtok d) else dtok d;
@@ -319,7 +319,7 @@ Definition drr_act (cfg : dcfg) (d : drr) (a : daction) : option (drr * list dou
                        dccnt := dupd (dccnt d) c n; ddef := dupd (ddef d) c (if reset then 0 else v);
                        dhol := dhol d; dcur := dcur d; dnrecv := dnrecv d; dlmax := dlmax d;
                        dchd := DCNone; dctrl := dctrl d |} in
-          let e1 := DODebit c p :: (if reset then [DOReset c] else []) in
+          let e1 := [DODebit c p reset] in
           match dcontinue cfg rest (dinner c rest d1) with
           | Some (d2, e2) => Some (d2, e1 ++ e2)
           | None => None
